@@ -104,34 +104,38 @@ OTHER_ALTBAD = ("forall(Ref('Framer'), lambda a: implies(a is not self, a.altbad
                 "trigger=lambda a: a.altbad)")
 
 
-def _walker(qual, lst, now, todo):
-    """Framer.exit (now=False) / Framer.enter (now=True): appended invariants and post-conditions.
-    `todo`: index range (over the ENTRY contents oldlist(lst)) of the frames not yet visited after _i iterations"""
+def _walker(qual, lst, now, done, todo):
+    """Framer.exit (now=False) / Framer.enter (now=True): appended invariants and post-conditions, all stated over the
+    ENTRY contents O = oldlist(lst) (what the callers know; Framer.exit reverses the list object in place).
+    `done` / `todo`: index ranges over O of the frames already visited / not yet visited after _i iterations"""
     c = _first(qual)
+    O = "oldlist(%s)" % lst
     val = "True" if now else "False"
     was = "False" if now else "True"
     pre = "(%s and %s and not old(self.altbad))" % (ALL_WERE.format(l=lst, v=was), DISTINCT_OLD.format(l=lst))
     c.modifies += [ENTERED_ANY, "self.altbad"]
     c.loops[0]["inv"] += [
-        "forall(lambda j: implies(0 <= j and j < _i, {l}[j].entered == {v}))".format(l=lst, v=val),
+        "forall(lambda j: implies(0 <= j and j < len(%s), %s[j].framer is self))" % (O, O),
+        "forall(lambda j: implies(%s, %s[j].entered == %s))" % (done, O, val),
         "forall(Ref('Frame'), lambda f: implies(f.framer is self and "
-        "forall(lambda j: implies(0 <= j and j < _i, {l}[j] is not f)), f.entered == old(f.entered)), "
-        "trigger=lambda f: f.entered)".format(l=lst),
+        "forall(lambda j: implies(%s, %s[j] is not f)), f.entered == old(f.entered)), "
+        "trigger=lambda f: f.entered)" % (done, O),
         "implies(%s, not self.altbad)" % pre,
         # under that pre-condition the frames still to be visited are as they were (distinct frames of this framer)
-        "implies(%s, forall(lambda j: implies(%s, oldlist(%s)[j].entered == %s)))" % (pre, todo, lst, was),
+        "implies(%s, forall(lambda j: implies(%s, %s[j].entered == %s)))" % (pre, todo, O, was),
         OTHER_ALTBAD,
     ]
     c.ensures += [
-        "forall(lambda j: implies(0 <= j and j < len({l}), {l}[j].entered == {v}))".format(l=lst, v=val),
-        OTHERS_SAME.format(l=lst),
+        "forall(lambda j: implies(0 <= j and j < len(%s), %s[j].entered == %s))" % (O, O, val),
+        OTHERS_SAME.format(l=O),
         "c06_alternation(implies(%s, not self.altbad))" % pre,
     ]
     return c
 
 
-_walker("Framer.exit", "exits", False, "0 <= j and j < len(exits) - _i")       # bottom-up: the tail goes first
-_walker("Framer.enter", "enters", True, "_i <= j and j < len(enters)")
+# bottom-up: Framer.exit visits the tail of the entry contents first
+_walker("Framer.exit", "exits", False, "len(exits) - _i <= j and j < len(exits)", "0 <= j and j < len(exits) - _i")
+_walker("Framer.enter", "enters", True, "0 <= j and j < _i", "_i <= j and j < len(enters)")
 # rexit / renter: neither flag is written (nothing appended: their modifies do not name the ghost fields)
 
 # ---------------------------------------------------------------- exitAll / enterAll (first variants: true list facts)
@@ -144,7 +148,7 @@ _c.ensures += [
     "trigger=lambda f: f.entered)" % OA,
     "c06_alternation(implies(%s and %s and not old(self.altbad), not self.altbad))"
     % ("forall(lambda j: implies(0 <= j and j < len(%s), old(self.actives[j].entered)))" % OA,
-       "forall(lambda j, k: implies(0 <= j and j < k and k < len(%s), %s[j] is not %s[k]))" % (OA, OA, OA)),
+       "forall(lambda j, k: implies(0 <= j and j < k and k < len(%s), old(self.actives[j] is not self.actives[k])))" % OA),
 ]
 FO = "self.first.outline"
 _c = _first("Framer.enterAll")
